@@ -75,6 +75,12 @@ def effectiveDof (sa2na sb2nb na nb : F) : F :=
   sub (sub (div (mul s s)
       (add (div (mul sa2na sa2na) (add na one)) (div (mul sb2nb sb2nb) (add nb one)))) one) one
 
+/-- the lower bound `min(na, nb) - 1` the crate applies to the computed effective degrees of freedom
+    (`if dof < dof_min { dof_min } else { dof }`: a NaN passes through) -/
+def clampDof (dof na nb : F) : F :=
+  let dofMin := sub (fmin na nb) one
+  if lt dof dofMin then dofMin else dof
+
 /-- guards and statistics of `Unpaired::ci_mean`, computed in `F` and widened, except for the effective
     number of degrees of freedom, which is computed in `W` -/
 def ciPrep (u : Unpaired F) : Outcome (Err W) (Arith.Prep W) :=
@@ -90,7 +96,8 @@ def ciPrep (u : Unpaired F) : Outcome (Err W) (Arith.Prep W) :=
   let sumS2n := add sa2na sb2nb
   let sem := sqrt sumS2n
   -- the effective dof is computed in the wide type (`f64`) from the widened variance terms and counts
-  let dof : W := effectiveDof (Widen.up sa2na) (Widen.up sb2nb) (Widen.up na) (Widen.up nb)
+  let dof : W := clampDof (effectiveDof (Widen.up sa2na) (Widen.up sb2nb) (Widen.up na) (Widen.up nb))
+    (Widen.up na) (Widen.up nb)
   if !(isFinite meanDiff) || !(isFinite sem) then .err .invalidInputData else
   .ok ⟨Widen.up meanDiff, Widen.up sem, dof⟩
 
